@@ -79,7 +79,7 @@ theorem live_mem_abs {k : Key} (kt : KT k) (rid : Nat) (hh : k.hasRec rid) (hl :
   exact List.mem_map.mpr ⟨rid, List.mem_filter.mpr ⟨kt.wq rid hh hl, by unfold Key.deadWaiter; rw [hl]; rfl⟩, rfl⟩
 
 /-- what a sweep step starts from: the working state of a linked key record with its invariants -/
-structure WS (w : W) : Prop where
+structure WSt (w : W) : Prop where
   hg : w.gone = false
   good : Good w
   cl : CurLive w.k
@@ -88,7 +88,7 @@ structure WS (w : W) : Prop where
   kt : KT w.k
   k1 : K1 w.k
 
-theorem WS.hrec {w : W} (h : WS w) : ∀ y ∈ w.k.current.toList ++ w.k.locks ++ w.k.wait.map (·.rid), w.k.hasRec y := by
+theorem WSt.hrec {w : W} (h : WSt w) : ∀ y ∈ w.k.current.toList ++ w.k.locks ++ w.k.wait.map (·.rid), w.k.hasRec y := by
   intro y hy
   apply h.good.lv.rc.dang
   have h1 := qRefs_pos_of_any w.k y hy
@@ -96,7 +96,7 @@ theorem WS.hrec {w : W} (h : WS w) : ∀ y ∈ w.k.current.toList ++ w.k.locks +
   omega
 
 /-- **re-arm**, working-state level -/
-theorem rearmT_rel {w : W} (h : WS w) (a : Engine.DB) (sc : Scal a w.db) (out1 : List Engine.Reply) (ho : w.out.map (·.r) = out1) (rid : Nat)
+theorem rearmT_rel {w : W} (h : WSt w) (a : Engine.DB) (sc : Scal a w.db) (out1 : List Engine.Reply) (ho : w.out.map (·.r) = out1) (rid : Nat)
     (hT : w.k.hasT rid = true) (hl : (w.k.getR rid).timeouted = false) (hdue : (w.k.getR rid).timeoutT > w.db.now) :
     w.visitTimeout true rid = some ((w.modR rid bumpT).addTimeOut rid) ∧
     Rel ((w.modR rid bumpT).addTimeOut rid) (seqUp a)
@@ -146,7 +146,7 @@ theorem rearmT_rel {w : W} (h : WS w) (a : Engine.DB) (sc : Scal a w.db) (out1 :
     ⟨T.good hg', T.cur hg', h.cn.of_cl rfl rfl, wi'.wq, habs⟩
 
 /-- **a due long-table entry is taken in hand**, working-state level -/
-theorem collectT_rel {w : W} (h : WS w) (a : Engine.DB) (sc : Scal a w.db) (out1 : List Engine.Reply) (ho : w.out.map (·.r) = out1) (rid : Nat)
+theorem collectT_rel {w : W} (h : WSt w) (a : Engine.DB) (sc : Scal a w.db) (out1 : List Engine.Reply) (ho : w.out.map (·.r) = out1) (rid : Nat)
     (hT : w.k.hasT rid = true) (hl : (w.k.getR rid).timeouted = false) :
     Rel (w.collectT rid) a (clrK [rcId w.k.key (waiterOf w.k rid)] (Key.abs w.k)) out1 := by
   have hs := hasT_spec _ rid hT
@@ -176,7 +176,7 @@ theorem collectT_rel {w : W} (h : WS w) (a : Engine.DB) (sc : Scal a w.db) (out1
 
 /-- the working state a sweep step opens -/
 theorem ws_open (s : DB) (hq : DBQ s) (hk : DBK s) (hkt : DBKT s) (key : Nat) (k1 : K1 (s.getKey key)) (hg : (s.openKey key).gone = false) :
-    WS (s.openKey key) :=
+    WSt (s.openKey key) :=
   ⟨hg, Good.openKey hq.dbt.dbi hq.dbt.tight key, cur_openKey hq.dbt.tight key, (qi_getKey hq.qi key).cn, WI.openKey s key (hk.getKey key),
     hkt.getKey key, k1⟩
 
